@@ -22,7 +22,7 @@ ASSUMPTIONS = ['independent parse: big-endian unsigned B, H, I of bytes 0..6']
 def shards(tier, seed):
     q = tier == 'quick'
     out = [{'name': 'hdr%d' % i, 'what': 'headers',
-            'rand': 6000 if q else 120000, 'axes': i == 0} for i in range(4)]
+            'rand': 6000 if q else 1000000, 'axes': i == 0} for i in range(4)]
     for i, g in enumerate(common.split(common.ALL_INDEXES, 4)):
         out.append({'name': 'frames%d' % i, 'what': 'frames', 'indexes': g,
                     'per': 12 if q else 300})
